@@ -138,6 +138,9 @@ func VH_C20_SetIdentity() {
 	if c0 != 0 {
 		vReach("kept")
 		vAssert(c1 == c0 && n1 == n0, "S-identity-once-set-is-never-changed")
+		// and the caller is told: the same identity again is fine, another one is refused with the documented error
+		vAssert(vImp(vAnd(vAnd(cid != 0, nid != 0), vNot(vAnd(cid == c0, nid == n0))), err == ErrIdentityAlreadySet), "S-refusal-is-reported-as-identity-already-set")
+		vAssert(vImp(vAnd(cid == c0, nid == n0), err == nil), "S-same-identity-again-succeeds")
 	} else if err == nil && cid != 0 && nid != 0 {
 		vReach("set")
 		vAssert(c1 == cid && n1 == nid, "S-unset-identity-gets-set")
